@@ -58,4 +58,28 @@ theorem foldl_clean (pre : List UInt8) (h : ∀ x ∈ pre, shouldEscape x = fals
     apply Array.toList_inj.mp
     simp
 
+
+/-! ## the escaping loop = the fold -/
+
+attribute [local simp] exec exec1 execCases evalE evalEs isOneOf binop convert ofE Env.get_set
+
+theorem tbl_se (x : UInt8) : tblLookup "shouldEscape" x.toNat = some (.bool (shouldEscape x)) := rfl
+theorem tbl_hex (x : UInt8) : tblLookup "valToHex" x.toNat = some (.u8 (valToHex x)) := rfl
+
+/-- one iteration of the second loop -/
+theorem escBody_step (fuel : Nat) (st : St) (d : Bytes) (x : UInt8)
+    (hd : st.env.get "dst" = some (.bytes d)) (hs : st.env.get "s" = some (.u8 x)) :
+    (exec goFuns fuel escBody st = .normal ⟨st.env.set "dst" (.bytes (stepB d x)), st.tape⟩) ∨
+    (exec goFuns fuel escBody st = .cont ⟨st.env.set "dst" (.bytes (stepB d x)), st.tape⟩) := by
+  by_cases hc : shouldEscape x = true
+  · left
+    simp [escBody, goescapeBytes, hd, hs, tbl_se, tbl_hex, hc, stepB, escapeByte]
+    trace_state
+    sorry
+  · right
+    have hc' : shouldEscape x = false := by simpa using hc
+    simp [escBody, goescapeBytes, hd, hs, tbl_se, hc', stepB, escapeByte_clean]
+    trace_state
+    sorry
+
 end SJ.GoEscape
